@@ -123,6 +123,8 @@ def run(ctx, host=None):
     fr = K.top_frame(fn)
 
     # ---------------------------------------------------------------- R1
+    from .common import one_shot_reuse
+    one_shot_reuse(ctx, chk, R1, [fn, prog.fn('container:Container.clean_storage')], label='deletion')
     g = ctx.icfg(DELETE, {}, pol, key='wp2')
     reach = g.reachable(('n',))
     nun = 0
@@ -130,6 +132,9 @@ def run(ctx, host=None):
         if n.id not in reach:
             continue
         for e in E.of(n):
+            if e[0] in ('SESSION_RESET', 'DB_ROLLBACK') and (e[0] == 'DB_ROLLBACK' or e[1] == 'op'):
+                chk.bad(R1, DELETE, n.text(100), 'delete_objects drops the pending transaction of the handle (session closed / rolled back): index rows that an earlier direct-to-pack call staged with '
+                        'do_commit=False vanish although they were not among the requested keys -- "leaves every other object readable and unchanged" -- and the next repack erases their bytes', where=n.where)
             if e[0] in ('RMDIR', 'RMTREE'):
                 chk.bad(R1, DELETE, n.text(100), 'delete_objects removes a directory of the container: with loose_prefix_len=0 the parent of a loose file is loose/ itself, so deleting the last loose object '
                         'would remove the folder every other operation relies on', where=n.where)
